@@ -44,11 +44,38 @@ for p in props:
                       'Trusted base: the CFG/call-graph engine in /verif/sa, the frozen '
                       'receiver-type table (sa/calls.py), posix platform pruning. '
                       + ' '.join(getattr(mod, 'ASSUMPTIONS', [])),
-        'technique': getattr(mod, 'TECHNIQUE',
-                             'static analysis: per-function CFG must-pass-through / '
-                             'dominance, resolved call-graph reachability, guard '
-                             'truth-table and ordering abstraction'),
+        'technique': getattr(mod, 'TECHNIQUE', None) or '<<%s>>' % pid,
     })
+
+
+COMMON = ('static analysis on the canonical form of the parsed source (sa/normalize.py): ')
+TECH = {
+ 'C01': 'CFG must-pass-through/dominance for count reconciliation, affine normal form of the deficit arithmetic, guard ordering abstraction of the respawn/retry tests, call-graph who-may-write check on numprocesses/processes',
+ 'C02': 'typestate of the watcher status over CFG paths with must-summaries across resolved calls (stopped only after kill+reap), guard-assumption reachability (reach_under), who-may-restart call-graph check',
+ 'C03': 'path ordering on the CFG of kill_process (stop signal dominates SIGKILL), ordering abstraction of the grace-period loop guard with affine counter variant, children-before-parent ordering in send_signal_process',
+ 'C04': 'pairing rule on the process table (register/remove) over CFG paths incl. exception edges, lexical raise-escape summaries, transient-status must-summaries with vacuous edges, reap sweep completeness',
+ 'C05': 'who-may-call check of blocking primitives over the resolved call graph from event-loop entry points, loop bound/variant detection, reply-count dataflow shared with C06',
+ 'C06': 'reply-count forward dataflow over the CFG of dispatch/handle_message (exactly one logical reply), case split on the send_resp flag through reaching definitions, error-discipline check on handlers, id propagation by expansion',
+ 'C07': 'who-may-call (bind/listen/close only from the socket lifecycle) over the call graph, snapshot/alias check of the socket fd table by reaching definitions',
+ 'C08': 'must-pass-through on shutdown paths, decorator-order check, path-result analysis of Pidfile.validate (value vs None ends per handler and errno branch), signal table agreement',
+ 'C09': 'event/table pairing on CFG paths (spawn/reap/kill events dominate or are dominated by table updates), decoded exit-status guard tabulation, producer/consumer vocabulary agreement',
+ 'C10': 'lock typestate of the exclusive-command slot: acquire/release pairing on all exits incl. exception edges and callbacks, who-may-mutate call-graph check against @synchronized',
+ 'C11': 'validate-before-apply ordering over the call graph, totality table of conversions vs validated types, raise-escape summaries of the apply phase, guard-assumption reachability of the unknown-key gate',
+ 'C12': 'guard-assumption reachability on reload_from_config (replace iff diff beyond numprocesses), baseline update must-pass-through, copy-vs-alias check of remembered configurations',
+ 'C13': 'reaching-definition expansion of the returned argv with a shape grammar and per-shape path feasibility, regex structure of the substitution pattern (re._parser), keyword plumbing agreement Watcher -> Process -> Popen',
+ 'C14': 'guard tabulation of call_hook outcomes (eval of the pure outcome table), hook-result-used dataflow at each gate, documentation/code hook-name agreement, alias check of the ignore list',
+ 'C15': 'who-may-write check on watchers/_watchers_names, pairing of the two directories on all paths, case-normalisation agreement between writers and readers',
+ 'C16': 'documentation/parser/constructor default-table agreement, outcome table of dget by expansion + feasibility, layered-mapping forward dataflow (sa/layers.py) for environment precedence, first-definition guard in the parser',
+ 'C17': 'label flow from registration to handler (structural agreement), attach-once guard, EOF/typestate of descriptors on CFG paths',
+ 'C18': 'receiver provenance by reaching-definition expansion (only table entries are signalled), request-form/sender selection by guard-assumption reachability, regex anchoring (re._parser) and lookup scope of to_signum',
+ 'C19': 'ordering key agreement (priority, reverse on stop), pacing must-pass-through between spawns, start exclusivity over the call graph',
+ 'C20': 'ordering abstraction of the size test, affine form of the shift-loop indices and suffixes by expansion, remove-before-rename pairing, prefix shape by expansion',
+}
+
+for c in checks:
+    pid = c['property_id']
+    if c['technique'].startswith('<<'):
+        c['technique'] = COMMON + TECH[pid]
 
 manifest = {
     'version': 1,
